@@ -372,6 +372,17 @@ impl SerialiseInto for &str {
     }
 }
 
+/* Durations that do not fit their wire field are sent as the largest value the field can hold
+ * (which for the 32 bit lifetimes means "infinity"), they must never wrap around.
+ */
+fn saturating_u16(v: u64) -> u16 {
+    u16::try_from(v).unwrap_or(u16::MAX)
+}
+
+fn saturating_u32<T: TryInto<u32>>(v: T) -> u32 {
+    v.try_into().unwrap_or(u32::MAX)
+}
+
 fn serialise_router_advertisement(a: &RtrAdvertisement) -> Vec<u8> {
     let mut v: Serialise = Default::default();
     v.serialise(ND_ROUTER_ADVERT.0);
@@ -382,9 +393,9 @@ fn serialise_router_advertisement(a: &RtrAdvertisement) -> Vec<u8> {
         if a.flag_managed { 0x80_u8 } else { 0x00_u8 }
             | if a.flag_other { 0x40_u8 } else { 0x00_u8 },
     );
-    v.serialise(a.lifetime.as_secs() as u16);
-    v.serialise(a.reachable.as_millis() as u32);
-    v.serialise(a.retrans.as_millis() as u32);
+    v.serialise(saturating_u16(a.lifetime.as_secs()));
+    v.serialise(saturating_u32(a.reachable.as_millis()));
+    v.serialise(saturating_u32(a.retrans.as_millis()));
     for opt in &a.options.0 {
         match opt {
             NDOptionValue::SourceLLAddr(src) => {
@@ -407,8 +418,8 @@ fn serialise_router_advertisement(a: &RtrAdvertisement) -> Vec<u8> {
                     if prefix.onlink { 0x80_u8 } else { 0x00_u8 }
                         | if prefix.autonomous { 0x40_u8 } else { 0x00_u8 },
                 );
-                v.serialise(prefix.valid.as_secs() as u32);
-                v.serialise(prefix.preferred.as_secs() as u32);
+                v.serialise(saturating_u32(prefix.valid.as_secs()));
+                v.serialise(saturating_u32(prefix.preferred.as_secs()));
                 v.serialise(0_u32);
                 v.serialise(&prefix.prefix);
             }
@@ -417,7 +428,7 @@ fn serialise_router_advertisement(a: &RtrAdvertisement) -> Vec<u8> {
                 v.serialise(RDNSS.0);
                 v.serialise(u8::try_from(1 + servers.len() * 2).unwrap());
                 v.serialise(0_u16); // Reserved / Padding.
-                v.serialise(lifetime.as_secs() as u32);
+                v.serialise(saturating_u32(lifetime.as_secs()));
                 for server in servers {
                     v.serialise(server);
                 }
@@ -438,7 +449,7 @@ fn serialise_router_advertisement(a: &RtrAdvertisement) -> Vec<u8> {
                 v.serialise(DNSSL.0);
                 v.serialise(1 + (dnssl.v.len() / 8) as u8);
                 v.serialise(0_u16); // Reserved / Padding.
-                v.serialise(lifetime.as_secs() as u32);
+                v.serialise(saturating_u32(lifetime.as_secs()));
                 v.serialise(&dnssl.v);
             }
             NDOptionValue::Pref64((lifetime, prefixlen, prefix)) => {
